@@ -63,11 +63,13 @@ func (s *socket) RecvMsg() (*protocol.Message, error) {
 	// socket.  Later we can look at moving this to priority queues
 	// based on socket pipes.
 	tq := nilQ
+	s.Lock()
+	if s.recvExpire > 0 {
+		tq = time.After(s.recvExpire)
+	}
+	s.Unlock()
 	for {
 		s.Lock()
-		if tq == nil && s.recvExpire > 0 {
-			tq = time.After(s.recvExpire)
-		}
 		cq := s.closeQ
 		rq := s.recvQ
 		zq := s.sizeQ
